@@ -174,6 +174,19 @@ CHECKS.update({
              "operand (thorough: two), 7 x 5 beyond.",
         technique=S2, design="6/C13"),
 })
+CHECKS.update({
+    "C08": dict(
+        text="`T1[W1] v; T2[W2] x = VALUE;` and `...; x = VALUE;` for every ordered pair of the 9 scalar types, widths absent or SYMBOLIC decimal "
+             "digits, const / non-const, VALUE a variable, const variable, arithmetic on it, negation, parenthesis, cast, a literal of each of "
+             "9 classes, or a measurement, analysed from MIR. Proved for all widths of a path: identifier / literal / cast / arithmetic / "
+             "measurement nodes carry the prescribed type; no diagnostic on the statement => the stored value's type equals the target type "
+             "up to const-ness; kind-lowering conversions and negative literal -> uint are diagnosed; same kind, non-constant value, W2 < W1 "
+             "=> diagnosed.",
+        note="Trusted: the conversion table written from the property text (vf/h_c08.py downward()), tree / map / string models, MIR dump, z3; "
+             "counterexamples confirmed by engine==native on the concrete text. Bounds: widths of 1 (quick) / 1-2 digits, one value "
+             "expression of depth <= 1; subroutine-call values and arrays outside.",
+        technique=S2, design="6/C08"),
+})
 
 NOT_YET = {}
 
